@@ -54,7 +54,9 @@ def generate(seed, tier="quick", prop=PROPERTY, logprobs=0.0, all_logprobs=0.1):
         op["kw"] = sampling.gen_rejection_kw(rnd, N, pname, logprobs=logprobs, all_logprobs=all_logprobs)
         sampling.add_arg_types(rnd, op)
         ops.append(op)
-    return {"format": 1, "property": prop, "seed": seed, "config": cfg, "ops": ops, "schedule": None, "faults": []}
+    prog = {"format": 1, "property": prop, "seed": seed, "config": cfg, "ops": ops, "schedule": None, "faults": []}
+    sampling.add_concurrent(rnd, prog)
+    return prog
 
 
 def judge_rejection(dep, rec, L, prop, probes):
@@ -191,6 +193,7 @@ def evaluate(dep, program):
         bad = lib.modified_in_place()
         if bad:
             v.append(Violation("C02", "C02.input-modified", "C02:library-object-modified-in-place-by-a-call", "library %d: column(s) %s of the user's JokerSamples object no longer hold what was put there; later calls see another library" % (li, bad)))
+    v += sampling.check_concurrent(dep, "C02", probes)
     if program.get("scale_probe"):
         probes["scale_probe_runs(N>2**20)"] = 1
     if program["config"].get("ll_override"):
